@@ -13,6 +13,12 @@ theorem C11_source_fc_status_bool (s : FStatus) :
     Gen.c11FcStatusBoolSrc.run noExt [fstVal s] = .ok (.bool s.truthy) := by
   cases s <;> rfl
 
+/-- … explicitly (the model's falsy list is a table regenerated from the same source): a field
+    comparison status is false exactly for `failed` and `error`. -/
+theorem C11_source_fc_status_bool_explicit (s : FStatus) :
+    Gen.c11FcStatusBoolSrc.run noExt [fstVal s] = .ok (.bool (decide (s ≠ .failed ∧ s ≠ .error))) := by
+  cases s <;> rfl
+
 /-- `FieldComparisonSuite.__bool__` is the model's `Suite.bool`: false when the domain check failed,
     otherwise "no failed comparison". -/
 theorem C11_source_fc_suite_bool (s : Suite) :
